@@ -5,7 +5,7 @@
 (* predicate is a pure function with rich case analysis, each triple becomes one            *)
 (* implementation test per reachable state.                                                 *)
 EXTENDS EzApi, Json
-CONSTANTS MaxVals, Deep
+CONSTANTS MaxVals, Deep, Variant      \* Variant: "triples" (every typed set) | "names" (few sets, names and groups that differ by case only)
 
 gG1 == <<71,49>>  gG2 == <<71,50>>  gG3 == <<71,51>>  gNope == <<78,79,80,69>>
 nA == <<65>>  nB == <<66>>
@@ -32,11 +32,19 @@ OtherOps == {
   [g |-> gG1, p |-> P(<<>>, <<>>, 0, <<OneSet(TINT, 1, <<>>)>>)],           \* unnamed -> invalid_argument
   [g |-> gG1, p |-> P(nA, <<>>, 0, <<>>)],                                    \* untyped -> runtime_error
   [g |-> gG3, p |-> P(nA, <<>>, 0, <<>>)],                                    \* untyped for a group that does not exist: no group may appear
-  [g |-> gG1, p |-> P(nB, <<>>, 0, <<OneSet(TINT, 2, <<>>), OneSet(TFLOAT, 1, <<2>>)>>)]    \* refused set after an accepted one
+  [g |-> gG1, p |-> P(nB, <<>>, 0, <<OneSet(TINT, 2, <<>>), OneSet(TFLOAT, 1, <<2>>)>>)],   \* refused set after an accepted one
+  [g |-> gG1, p |-> P(nB, <<>>, 0, <<OneSet(TINT, 1, <<>>), OneSet(TINT, 2, <<3>>)>>)],     \* refused set announcing more values than are held
+  [g |-> gG1, p |-> P(nB, <<>>, 0, <<OneSet(TFLOAT, 2, <<>>), OneSet(TCHAR, 2, <<3>>)>>)]   \* refused text set after accepted numbers: still a float parameter
 }
-RECURSIVE SetToSeq(_)
-SetToSeq(S) == IF S = {} THEN <<>> ELSE LET x == CHOOSE y \in S : TRUE IN <<x>> \o SetToSeq(S \ {x})
-MC_UserParams == SetToSeq(TripleOps \cup ScalarOps \cup OtherOps \cup (IF Deep THEN DeepOps ELSE {}))
+CaseOps == {
+  [g |-> gG1, p |-> P(<<97>>, <<>>, 0, <<OneSet(TINT, 1, <<>>)>>)],           \* "a" next to "A": names are compared exactly, a second parameter
+  [g |-> gG1, p |-> P(<<97>>, <<>>, 0, <<OneSet(TCHAR, 1, <<>>)>>)],
+  [g |-> <<103,49>>, p |-> P(nA, <<>>, 0, <<OneSet(TFLOAT, 1, <<>>)>>)],      \* "g1" next to "G1": a second group
+  [g |-> sPOINT, p |-> P(<<85,115,101,100>>, <<>>, 0, <<OneSet(TINT, 1, <<>>)>>)]    \* POINT:Used is not POINT:USED
+}
+LOCAL SX == INSTANCE SequencesExt
+SetToSeq(S) == SX!SetToSeq(S)        \* (the module's Java implementation: a recursive definition overflows TLC's stack on the deep alphabet)
+MC_UserParams == IF Variant = "names" THEN SetToSeq(ScalarOps \cup OtherOps \cup CaseOps) ELSE SetToSeq(TripleOps \cup ScalarOps \cup OtherOps \cup (IF Deep THEN DeepOps ELSE {}))
 gG4 == <<71,52>>
 MC_AliasGroups == {gG4}
 MC_LockNames == IF Deep THEN {gG1, gG2, gNope} ELSE {gG1, gNope}
